@@ -1,4 +1,5 @@
 import Cello.Exn
+import Cello.ExnSignal
 import CelloGen.Exn
 import Driver.Common
 /- driver for engine `exn` (C07): one program per line `P <sexp>`; prints the machine's observation (`O`) — what
@@ -26,6 +27,58 @@ def topBound : Nat := kindObj 0
 def machine : Prog → Nat → St → St × List Ev × Sig :=
   runCfgW harnessWorld CelloGen.Exn.catchWalksFilterWithForeachEq CelloGen.Exn.catchConsumes CelloGen.Exn.maxDepth
 
+
+/-! extension round: signals (`(k N)` leaves, op `S`), the uncaught-exception report (op `E`) -/
+
+/-- the signal numbers of the `(k N)` leaves of a program text -/
+def sigLeaves : List Tok → List Nat
+  | .lp :: .sym 'k' :: .num n :: rest => n :: sigLeaves rest
+  | _ :: rest => sigLeaves rest
+  | [] => []
+
+/-- how `%$` shows the harness's objects (address ↦ text) and their C strings -/
+def typeNames : List String := ["TypeError", "ValueError", "KeyError", "IOError", "FormatError", "BusyError", "ClassError"]
+def objStr (a : Nat) : String :=
+  if 1 ≤ a ∧ a ≤ 7 then typeNames.getD (a - 1) "?"
+  else if a = 8 ∨ a = 10 then "A" else if a = 9 then "B" else if a = 11 then "TypeError"
+  else if a = 12 ∨ a = 14 then "5" else if a = 13 then "7"
+  else if 15 ≤ a ∧ a ≤ 20 then (CelloGen.Exn.signalTable.getD (a - 15) ("", "?", "")).2.1 else "?"
+def objShown (a : Nat) : String :=
+  if 8 ≤ a ∧ a ≤ 11 then "\"" ++ objStr a ++ "\"" else objStr a
+
+def fillText (n : Nat) : String := String.ofList ((List.range n).map (fun i => Char.ofNat ('a'.toNat + i % 26)))
+
+/-- the message of harness op `E k shape len` -/
+def diagMsg (k shape len : Nat) : String :=
+  if k ≥ 200 then (CelloGen.Exn.signalTable.getD ((k - 200) % 6) ("", "", "?")).2.2
+  else match shape % 3 with
+    | 0 => s!"kind {k}"
+    | 1 => s!"\"obj\" is kind {k} (100%)"
+    | _ => s!"kind {k} {fillText len} end"
+
+def escapeText (s : String) : String :=
+  String.join (s.toList.map (fun c => if c = '\n' then "\\n" else if c = '\t' then "\\t" else c.toString))
+
+def reportDiag (k shape len : Nat) : IO Unit := do
+  let a := if k ≥ 200 then sigObj (k - 200) else kindObj k
+  let text := reportText (objShown a) (objStr a) (diagMsg k shape len) CelloGen.Exn.errorStmts
+  let st := reportStatus CelloGen.Exn.errorStmts
+  let e := if st = some 1 then "fatal" else "other"
+  IO.println s!"O diag end={e} status={match st with | some n => toString n | none => "-"} len={text.length} text={escapeText (String.ofList (text.toList.take 400))}"
+
+/-- op `S mode n1 n2 …`: a history of `try { raise(sig ni); s1 } catch (e in F) { s2 }` in one thread, then `s9`;
+    mode 0: catch-all, 1: the signal's own exception object, 2: a filter that does not list it (TypeError) -/
+def reportSigHist (mode : Nat) (sigs : List Nat) : IO Unit := do
+  let ops : List SOp := sigs.map (fun n => ⟨n, if mode = 0 then [] else if mode = 1 then [sigObj n] else [kindObj 0], .stmt 2⟩)
+  let M := machine
+  let (s, t, g) := runS CelloGen.Exn.signalHandlerUnblocks M ops topBound ⟨St.init, []⟩
+  let t' := if g = .normal then t ++ [.stmt 9] else t
+  IO.println s!"O trace={showTrace t'} end={endOf g} depth={if g = .normal then toString s.st.depth else "-"}"
+  let (rt, re) := evalS ops topBound
+  let rt' := if re = none then rt ++ [.stmt 9] else rt
+  let once := sigsOnce sigs
+  IO.println s!"R trace={showTrace rt'} exc={match re with | none => "none" | some e => toString (e - 1)} nest=1 bound={nestBound} sigs_once={once} unblocks={CelloGen.Exn.signalHandlerUnblocks} hyp={once || CelloGen.Exn.signalHandlerUnblocks}"
+
 def report (p : Prog) : IO (Nat × Bool) := do
   let (s, t, g) := machine p topBound St.init
   let (rt, re) := evalW harnessWorld p topBound
@@ -50,6 +103,10 @@ def main (args : List String) : IO Unit := do
       match parse (l.drop 2).toString with
       | none => IO.println "O bad-op"
       | some p =>
+        -- one signal twice in a program is outside the `(k N)` leaf's meaning (a blocked signal is not a throw: op `S`)
+        if !sigsOnce (sigLeaves (tokenize (l.drop 2).toString)) then
+          IO.println "O bad-op"
+          continue
         nProg := nProg + 1
         let (h, f) ← report p
         nHandlers := nHandlers + h
@@ -64,6 +121,19 @@ def main (args : List String) : IO Unit := do
           nHandlers := nHandlers + h
           if f then nFatal := nFatal + 1
         | _, _, _, _, _, _ => IO.println "O bad-op"
+      | _ => IO.println "O bad-op"
+    else if l.startsWith "S " then
+      match (Driver.words (l.drop 2).toString).map String.toNat? with
+      | some mode :: rest =>
+        if rest.all Option.isSome && !rest.isEmpty && rest.length ≤ 12 && mode ≤ 2 then
+          nProg := nProg + 1
+          reportSigHist mode (rest.filterMap id)
+        else IO.println "O bad-op"
+      | _ => IO.println "O bad-op"
+    else if l.startsWith "E " then
+      match (Driver.words (l.drop 2).toString).map String.toNat? with
+      | [some k, some shape, some len] =>
+        if len ≤ 60000 && shape ≤ 2 then reportDiag k shape len else IO.println "O bad-op"
       | _ => IO.println "O bad-op"
     else if l.trimAscii.toString = "A" then
       -- the documented accessors exception_object() / exception_message(): defined in the source or not
